@@ -457,6 +457,16 @@ class RefLink:
             t = a.shift(t)
         return t
 
+    def endpoint_request_at_source(self, newest):
+        """for a link with a push-notified adapter: that adapter is the end point registered at the output; it pulls at every
+        notification, through whatever adapters sit between it and the source - the last request seen by the source is the
+        newest publication time shifted by those adapters"""
+        j = next(i for i, a in enumerate(self.ads) if a.buffering)
+        t = newest
+        for a in reversed(self.ads[:j]):
+            t = a.shift(t)
+        return t
+
     def request_time_at_source(self, t):
         """time argument that reaches the source during a consumer pull at t; None if the pull is
         answered from a buffer (a push-notified adapter sits on the link)"""
